@@ -1,7 +1,7 @@
 CONSTANTS
   MinKeys = 0
   MaxKeys = 2
-  NI = 4
+  NI = 3
   MaxRF = 3
   Shape = "any"
   Grain = "call"
